@@ -243,3 +243,178 @@ def run(ctx):
                 R.ok('e', 'R5', '%s: threshold = start of the range containing the block number' % fn_short(fn), '', qf.loc())
             else:
                 R.violation('e', 'R5', '%s: threshold = start of the range containing the block number' % fn_short(fn), 'sql:range-start:%s' % fn_short(fn), '', qf.loc())
+
+
+# ---------------------------------------------------------------- added after seeds C13-1 / C13-2
+
+CB = 'mithril_persistence::sqlite::connection_builder::'
+CO = CB + 'ConnectionOptions'
+STREAMER = 'mithril_cardano_node_chain::chain_scanner::chain_reader_block_streamer::'
+
+
+def _fk_rules(ctx):
+    """(f) the transactions of a rolled-back block are removed by the ON DELETE CASCADE of the block delete (the roll-back issues
+    no delete on cardano_tx): every connection of the cardano_tx stores must therefore enforce foreign keys."""
+    import re
+    R = ctx.report
+    ws = ctx.ws
+    R.clause('f', 'connections of the chain-data stores enforce foreign keys (the block delete cascades to the transactions)')
+    # f0: the premise - the roll-back really has no transaction delete of its own
+    f = ctx.try_fn('f', RB)
+    if f is not None:
+        own = [c.best() for g in f.logic().family() for c in g.body.calls()
+               if any(glob_match(Q + 'cardano_transaction::delete*', n) or glob_match(Q + '*::DeleteCardanoTransaction*', n) for n in c.names())]
+        if own:
+            R.info('f', 'the roll-back deletes transactions explicitly (%s): the cascade is no longer the only mechanism' % own[:2])
+    # f1: who opens connections
+    openers = sorted({x.root().name for x, _ in ws.callers_of(['sqlite::connection::Connection::open*', 'sqlite::open*']) if x.unit.tag == 'lib'})
+    allow = [(CB + 'ConnectionBuilder::build_without_migrations', 'the one connection factory'),
+             ('mithril_signer::store::mktree_store_sqlite::MKTreeStoreSqlite::create_connection', 'scratch Merkle-tree store, no chain data')]
+    off = [o for o in openers if not any(glob_match(a, o) for a, _ in allow)]
+    inst = 'SQLite connections are opened only by ConnectionBuilder::build_without_migrations'
+    if off or (CB + 'ConnectionBuilder::build_without_migrations') not in openers:
+        R.violation('f', 'R3', inst, 'sqlite:openers', 'connections opened by %s' % (off or openers), None)
+    else:
+        R.ok('f', 'R3', inst, '%d opener(s)' % len(openers))
+    # f2: flag => pragma, on every success path of the factory
+    b = ctx.try_fn('f', CB + 'ConnectionBuilder::build_without_migrations')
+    if b is not None:
+        body = b.body
+        guards, execs = [], []
+        for c in body.calls():
+            if any(n.endswith('::contains') for n in c.names()) and len(c.args) == 2 and \
+                    has(fn_origins(b, c.args[1], True), 'adt:' + CO + '::EnableForeignKeys') and has(fn_origins(b, c.args[0], True), 'pty:ConnectionBuilder.options'):
+                guards.append(c)
+            if any(glob_match('sqlite::connection::Connection::execute', n) or glob_match('sqlite::*::execute', n) for n in c.names()) and len(c.args) == 2:
+                txt = None
+                if c.args[1][0] == 'const':
+                    txt = c.args[1][1]
+                else:
+                    cs = [o[6:] for o in fn_origins(b, c.args[1], 'adapters') if o.startswith('const:')]
+                    txt = cs[0] if cs else None
+                if txt and re.search(r'pragma\s+foreign_keys\s*=\s*(true|on|1|yes)\b', txt, re.I):
+                    execs.append(c)
+        inst = 'build_without_migrations: EnableForeignKeys set => `pragma foreign_keys=<on>` executed successfully before any connection is returned'
+        if not guards or not execs:
+            R.violation('f', 'R1', inst, 'connection:fk-pragma', 'EnableForeignKeys tests: %d, foreign_keys pragma executions: %d - pool connections '
+                        '(built without migrations) would run with foreign keys off: the block delete no longer cascades, orphan transactions make '
+                        '`insert or ignore` drop re-included transactions' % (len(guards), len(execs)), b.loc())
+        else:
+            removed = set()
+            for g in guards:
+                removed |= track_result(body, g.dest[0], -1).success_edges     # the flag is NOT set
+            for e in execs:
+                removed |= track_result(body, e.dest[0], +1).success_edges     # pragma executed OK
+            if success_reachable(body, removed):
+                R.violation('f', 'R1', inst, 'connection:fk-pragma', 'a connection can be returned with the option set and the pragma not executed (or its error dropped)', b.loc())
+            else:
+                R.ok('f', 'R1', inst, '', b.loc())
+    # f3: the chain-data stores ask for the option
+    for fn, who in (('mithril_signer::dependency_injection::builder::DependenciesBuilder::build_cardano_tx_sqlite_connection_pool', 'signer'),
+                    ('mithril_aggregator::dependency_injection::builder::DependenciesBuilder::setup_connection_builder', 'aggregator')):
+        g = ctx.try_fn('f', fn)
+        if g is None:
+            continue
+        got = any(a == CO and v == 1 for h in g.logic().family() for (a, v) in h.aggs) or any(a == CO and v == 1 for (a, v) in g.aggs)
+        # variant index -> name, from the ADT
+        try:
+            adt = ws.adt(CO)
+            names = [v['n'] for v in adt['variants']]
+            idx = names.index('EnableForeignKeys')
+            got = any(a == CO and v == idx for h in [g] + list(g.logic().family()) for (a, v) in h.aggs)
+        except Exception as e:  # noqa
+            R.missing('f', e)
+            continue
+        inst = '%s: the cardano_tx connection builder is given ConnectionOptions::EnableForeignKeys' % who
+        if got:
+            R.ok('f', 'R5', inst, '', g.loc())
+        else:
+            R.violation('f', 'R5', inst, 'connection:fk-option:%s' % who, 'option not constructed in %s' % fn_short(fn), g.loc())
+    # f4: nobody force-disables them in a node
+    try:
+        adt = ws.adt(CO)
+        idx = [v['n'] for v in adt['variants']].index('ForceDisableForeignKeys')
+        users = sorted({h.root().name for h in ws.fns if h.unit.tag in ('lib', 'bin') and any(a == CO and v == idx for (a, v) in h.aggs)
+                        and not h.root().name.startswith('<' + CO) and not h.root().name.startswith(CB)})
+        inst = 'ForceDisableForeignKeys is requested by no node code path'
+        if users:
+            R.violation('f', 'R3', inst, 'connection:fk-force-disable', str(users[:4]), None)
+        else:
+            R.ok('f', 'R3', inst, '')
+    except Exception as e:  # noqa
+        R.missing('f', e)
+
+
+def _streamer_rules(ctx):
+    """(g) the chain reader streamer forwards every roll-back except the protocol's initial roll-back to the intersection point."""
+    from engine import find_guards, accepted_relation
+    R = ctx.report
+    ws = ctx.ws
+    R.clause('g', 'the block streamer drops no roll-back other than the initial one to the intersection point')
+    f = ctx.try_fn('g', STREAMER + 'ChainReaderBlockStreamer::get_next_chain_block_action')
+    if f is None:
+        return
+    lf = f.logic()
+    ACT = STREAMER + 'BlockStreamerNextAction'
+    try:
+        adt = ws.adt(ACT)
+        skip_idx = [v['n'] for v in adt['variants']].index('SkipToNextAction')
+    except Exception as e:  # noqa
+        R.missing('g', e)
+        return
+    inst = 'a RollBackward is skipped only when its slot equals the slot the scan started from'
+    problems = []
+    nskip = 0
+    for g in lf.family():
+        body = g.body
+        skips = []
+        for bi, b in enumerate(body.blocks):
+            if b.cleanup:
+                continue
+            for (ln, pl, rv) in b.stmts:
+                if rv[0] == 'agg' and rv[2] == ACT and rv[3] == skip_idx:
+                    skips.append(bi)
+        if not skips:
+            continue
+        nskip += len(skips)
+        gs = [x for x in find_guards(body) if x.op in ('Eq', 'Ne', 'Lt', 'Le', 'Gt', 'Ge')
+              and ((has(x.a_orig, '*from.slot_number*') and not has(x.b_orig, '*from.slot_number*'))
+                   or (has(x.b_orig, '*from.slot_number*') and not has(x.a_orig, '*from.slot_number*')))]
+        if not gs:
+            problems.append('SkipToNextAction built without a comparison with self.from.slot_number')
+            continue
+        for sb in skips:
+            ok = False
+            for x in gs:
+                rel_true = CMP_REL_[x.op]
+                # edges on which the relation is exactly "equal"
+                if rel_true == {'eq'}:
+                    eq_edges, other = x.true_edges, x.false_edges
+                elif ALL3_ - rel_true == {'eq'}:
+                    eq_edges, other = x.false_edges, x.true_edges
+                else:
+                    continue
+                # the skip is reachable only through the equal edge
+                if sb not in body.reach([0], removed=set(eq_edges)):
+                    ok = True
+            if not ok:
+                problems.append('SkipToNextAction (bb%d) reachable when the roll-back slot differs from the start slot (guards: %s)' % (
+                    sb, ['%s' % x.op for x in gs]))
+    if nskip == 0:
+        R.ok('g', 'R6', inst, 'no roll-back is ever skipped', lf.loc())
+    elif problems:
+        R.violation('g', 'R6', inst, 'streamer:skip-rollback', '; '.join(problems[:3]) + ': a real roll-back older than the resume point never reaches the '
+                    'store, the abandoned fork stays and `insert or ignore` drops the canonical blocks with the same numbers', lf.loc())
+    else:
+        R.ok('g', 'R6', inst, '%d skip site(s)' % nskip, lf.loc())
+
+
+from engine import CMP_REL as CMP_REL_, ALL3 as ALL3_  # noqa: E402
+
+_run_base = run
+
+
+def run(ctx):  # noqa: F811
+    _run_base(ctx)
+    _fk_rules(ctx)
+    _streamer_rules(ctx)
